@@ -22,6 +22,8 @@ RV_PROGRAMS = [
     ("one-instruction", "addi x1, x0, 5\n"),
     ("straight-line", ".data\nv: .word 7, 8\n.text\nla x3, v\nlw x1, 0(x3)\nlw x2, v[1]\nadd x4, x1, x2\nsw x4, 8(x3)\n"),
     ("exit-then-more", "addi a7, x0, 93\naddi a0, x0, 3\necall\naddi x5, x0, 1\naddi x6, x0, 2\n"),
+    ("exit-zero-then-more", "addi x5, x0, 1\naddi a7, x0, 10\necall\naddi x5, x5, 1\naddi x6, x0, 2\n"),
+    ("exit-93-status-zero-then-more", "addi a7, x0, 93\necall\naddi x5, x0, 1\nsw x5, 0(x0)\n"),
     ("print-and-fall-off", "addi a7, x0, 1\naddi a0, x0, -7\necall\n"),
     ("jump-outside", "addi x1, x0, 1\njal x2, 64\naddi x3, x0, 3\n"),
     ("fall-off-in-branch-shadow", "addi x1, x0, 1\nbeq x0, x0, 8\naddi x2, x0, 2\n"),
